@@ -234,6 +234,7 @@ class Session:
         self.n = 0
 
     def close(self):
+        self.exit_contexts()
         self.a = None
         if self.own_root:
             shutil.rmtree(self.root, ignore_errors=True)
@@ -269,13 +270,51 @@ class Session:
         elif self.cfg.form == 'tuple' and arr.ndim >= 2:
             arr = np.ascontiguousarray(arr.T).T
         md = self.mdict(_asmap(st['refmeta']))
+        cx = st.get('cx') or {'on': False}
+        self.exit_contexts()
+        first = arr[:cx['len']] if cx['on'] else arr
         try:
-            self.a = self.darr.asarray(self.path, arr, accessmode=st['mode'], metadata=md or None)
+            self.a = self.darr.asarray(self.path, first, accessmode='r+' if cx['on'] else st['mode'], metadata=md or None)
         except Exception as e:
             raise ImplFailure('asarray(%s %s, metadata=%r) failed: %r' % (arr.dtype.str, arr.shape, md, e)) from None
+        if cx['on']:
+            # the state was reached inside a context opened when the array had cx.len rows
+            self.do_EnterCtx(cx['mode'])
+            if len(arr) > cx['len']:
+                self.a.append(arr[cx['len']:])
+            if st['mode'] != 'r+':
+                self.a.accessmode = st['mode']
         if st.get('mmode', st['mode']) != st['mode']:
             self.a.metadata.accessmode = st['mmode']
         self.ret = None
+
+    # -- open_array() contexts / suspended iterchunks generators holding the shared map
+    def do_EnterCtx(self, m):
+        self.nctx = getattr(self, 'nctx', 0) + 1
+        kw = {} if m == 'default' else {'accessmode': m}
+        if self.nctx % 3 == 0 and len(self.a) > 0:
+            g = self.a.iterchunks(1, **kw)          # a generator suspended after its first chunk
+            next(g)
+            self.ctxs.append(('gen', g))
+        else:
+            cm = self.a.open_array(**kw)
+            cm.__enter__()
+            self.ctxs.append(('ctx', cm))
+
+    def do_ExitCtx(self):
+        kind, c = self.ctxs.pop()
+        if kind == 'gen':
+            c.close()
+        else:
+            c.__exit__(None, None, None)
+
+    def exit_contexts(self):
+        while getattr(self, 'ctxs', None):
+            try:
+                self.do_ExitCtx()
+            except Exception:
+                pass
+        self.ctxs = []
 
     # -- one public call
     def step(self, name, args):
@@ -629,13 +668,18 @@ def compare(prop, exp, obs, obs_out, ret=None, sess=None, strict_out=True):
         else:
             if live['hlen'] != exp['hlen']:
                 mm.append(('len(a)', exp['hlen'], live['hlen']))
-            if live['rows'] != tuple(exp['ref']):
-                mm.append(('a[:]', exp['ref'], live['rows']))
+            cxe = exp.get('cx') or {'on': False}
+            # inside an open context reads go through the map that was opened (LiveView of the spec: the
+            # rows it was opened for); showing the current rows instead would be just as good
+            views = [tuple(exp['ref'])] + ([tuple(exp['ref'][:cxe['len']])] if cxe['on'] else [])
+            if live['rows'] not in views:
+                mm.append(('a[:]', views, live['rows']))
             n = exp['hlen']
+            nv = len(live['rows'])
             per = int(np.prod(cfg.tail)) if cfg.tail else 1
             if live['shape'] != (n,) + cfg.tail or live['size'] != n * per or \
                     live['nbytes'] != n * per * cfg.dtype.itemsize or live['dtype'] != cfg.dtype.str or \
-                    live['vdtype'] != cfg.dtype.str or live['vshape'] != (n,) + cfg.tail:
+                    live['vdtype'] != cfg.dtype.str or live['vshape'] != (nv,) + cfg.tail:
                 mm.append(('shape/size/nbytes/dtype', ((n,) + cfg.tail, n * per, cfg.dtype.str),
                            (live['shape'], live['size'], live['nbytes'], live['dtype'], live['vdtype'])))
             if live['mode'] != exp['mode']:
